@@ -201,6 +201,11 @@ def release_harness(ctx: Ctx):
 
     def hook(node, frame, it, spec_, ordinal):
         state_before_loop["reached"] = True
+        # the views waiting for this array are dealt with only at the moment the array is an owner that has just become writeable
+        # again: NumPy refuses to make a view writeable while its base is read-only, and an early attempt would drop the view from
+        # the waiting list and the tracker for good
+        wN = ctx.heap[("ndarray", "writeable")]
+        ctx.oblige(f"{tag}.waiting_views_processed_only_when_owner_is_writeable_again", z3.And(b == 0, wN[a]), **meta)
         post(True)
         raise PathCut()
 
@@ -226,6 +231,9 @@ def release_harness(ctx: Ctx):
         ctx.oblige(f"{tag}.no_exception", False, raised=e.exc.cls_name(), **meta)
         return
     post(False)
+    # ... and they are not forgotten: an owner that is writeable again and has waiting views does reach the loop
+    wN = ctx.heap[("ndarray", "writeable")]
+    ctx.oblige(f"{tag}.waiting_views_not_skipped", z3.Not(z3.And(b == 0, wN[a], W.dom[a])), **meta)
 
 
 def roundtrip_lemma(ctx: Ctx):
